@@ -57,7 +57,7 @@ Init ==
     /\ ev = [act |-> "reset", by |-> "env", ok |-> TRUE]
     /\ sched = <<>>
     /\ \A i \in 1..20 : TLCSet(100 + i, 0)
-    /\ cfgv = [preapprove |-> TRUE, flavour |-> Flavour, thr |-> Thr, period |-> Period, executor |-> Executor, dep |-> Dep,
+    /\ cfgv = [preapprove |-> TRUE, hooked |-> (Flavour = "flex"), flavour |-> Flavour, thr |-> Thr, period |-> Period, executor |-> Executor, dep |-> Dep,
                voters |-> SetToSeq({[a |-> x, w |-> m[x]] : x \in {y \in Addr : m[y] >= 0}})]
 
 Ev(a, by, args) == [act |-> a, by |-> by, args |-> args, ok |-> TRUE]
